@@ -44,6 +44,8 @@ def the_doc():
                   criteria=(Cmp("PKT_APID", "==", "1"), Cmp("TYPE", "==", "0"))),
         Container("B", (("p", "B_F"), ("p", "B_E"), ("p", "B_P"), ("p", "B_S")), base="CCSDSPacket", criteria=(Cmp("PKT_APID", "==", "2"),)),
         Container("S", (("p", "S_BYTE"),), base="CCSDSPacket", criteria=(Cmp("PKT_APID", "==", "4"),)),
+        # stand-alone container: reachable only when a call names it as its root (root_container_name=...)
+        Container("RAWDUMP", (("p", "S_BYTE"), ("p", "A_CAL"))),
     )
     return Doc(pts, prs, conts)
 
@@ -96,6 +98,9 @@ def run_stream(defn, stream, opts):
 
 OPTS = [{"parse_bad_pkts": a, "yield_unrecognized_packet_errors": b, "ccsds_headers_only": c}
         for a in (True, False) for b in (False, True) for c in (False, True)]
+# a root container named for one call only: the choice belongs to that call, not to the definition
+OPTS[3:3] = [{"parse_bad_pkts": True, "yield_unrecognized_packet_errors": True, "ccsds_headers_only": False, "root_container_name": "RAWDUMP"}]
+OPTS.append({"parse_bad_pkts": False, "yield_unrecognized_packet_errors": False, "ccsds_headers_only": False, "root_container_name": "RAWDUMP"})
 
 
 def _task_streams(task):
@@ -167,7 +172,7 @@ def _task_streams(task):
         if ch:
             t.notes.append("package-level state changed while the check ran (not a violation by itself): " + ", ".join(ch[:6]))
     if task["seqs"]:
-        t.sample({"stream": list(task["seqs"][-1]), "palette": ["A-clean", "B-clean", "unrecognised", "A-too-long", "A-too-short", "unrecognised-with-a-recognised-APID", "raising (binary field beyond the end)"], "options": "all 8 combinations"})
+        t.sample({"stream": list(task["seqs"][-1]), "palette": ["A-clean", "B-clean", "unrecognised", "A-too-long", "A-too-short", "unrecognised-with-a-recognised-APID", "raising (binary field beyond the end)"], "options": "all 8 combinations + 2 with a per-call root container"})
     return t
 
 
@@ -193,6 +198,7 @@ def stream_specs():
         ("S3", s3, {"combine_segmented_packets": True}, "bytes"),
         ("S4", s4, {"combine_segmented_packets": True, "yield_unrecognized_packet_errors": True}, "bytes"),
         ("S5", b"".join(pal[i] for i in (3, 2, 1)), {"yield_unrecognized_packet_errors": True, "buffer_read_size_bytes": 5}, "socket"),
+        ("S7", b"".join(pal[i] for i in (0, 2, 1)), {"yield_unrecognized_packet_errors": True, "root_container_name": "RAWDUMP"}, "bytes"),
     ]
 
 
@@ -305,8 +311,9 @@ def run(ctx):
         "traces_validated_against_impl": tally.traces,
         "exhaustive": True,
         "bound": (f"(i) every stream of <= 4 packets over a 7-packet palette ({len(seqs)} streams) x all 8 combinations of parse_bad_pkts / "
-                  "yield_unrecognized_packet_errors / ccsds_headers_only vs. per-packet solo results; (ii) k=2: every ordered pair of 6 generators "
-                  "(two with combine_segmented_packets, one over a scripted socket) x ALL lattice-path interleavings of their next() calls up to exhaustion; "
+                  "yield_unrecognized_packet_errors / ccsds_headers_only (+ 2 with root_container_name naming a stand-alone container for that call) "
+                  "vs. per-packet solo results on fresh definitions; (ii) k=2: every ordered pair of 7 generators "
+                  "(two with combine_segmented_packets, one over a scripted socket, one with a per-call root container) x ALL lattice-path interleavings of their next() calls up to exhaustion; "
                   f"k=3: {len(triples)} triples with <= {2 if ctx.quick else 3} steps each, all interleavings; (iii) definition canon + written XML unchanged; "
                   "(iv) package footprint unchanged"),
         "rule": ("one evaluation = one stream run or one complete interleaving; states = distinct (generator combination, position vector) pairs; "
